@@ -83,6 +83,7 @@ type quicRun struct {
 	hang         string
 	startErr     error
 	completed    bool
+	tpRequests   int
 	orderSig     string
 	cancelledAt  int
 	closeErr     error
@@ -101,6 +102,7 @@ type quicOpts struct {
 	wrongLevelAt int
 	serverPlan   *tls.VerifPlan // hooks for the QUIC server's connection
 	neverStart   bool           // Start is not called at all; HandleData / Close must still return
+	tpOnRequest  bool           // SetTransportParameters only in answer to QUICTransportParametersRequired
 }
 
 func driveQUIC(rg *rand.Rand, ccfg *tls.Config, spec *tls.ClientHelloSpec, scfg *tls.Config, cancelAt int, fragment bool, qo quicOpts) *quicRun {
@@ -123,7 +125,9 @@ func driveQUIC(rg *rand.Rand, ccfg *tls.Config, spec *tls.ClientHelloSpec, scfg 
 		run.err = run.startErr
 		return run
 	}
-	q.SetTransportParameters([]byte{})
+	if !qo.tpOnRequest {
+		q.SetTransportParameters([]byte{})
+	}
 	if beforeStart != nil {
 		beforeStart()
 	}
@@ -250,7 +254,17 @@ func driveQUIC(rg *rand.Rand, ccfg *tls.Config, spec *tls.ClientHelloSpec, scfg 
 		case tls.QUICTransportParameters:
 			a.tpEvents++
 		case tls.QUICTransportParametersRequired:
-			run.err = fmt.Errorf("%s: unexpected QUICTransportParametersRequired", a.name)
+			if a == run.cli && qo.tpOnRequest {
+				// the application supplies its parameters when it is asked for them
+				if _, ok := bounded(func() error { q.SetTransportParameters([]byte{}); return nil }); !ok {
+					run.hang = "UQUICConn.SetTransportParameters (answering QUICTransportParametersRequired)"
+					cancel()
+					return run
+				}
+				run.tpRequests++
+			} else {
+				run.err = fmt.Errorf("%s: unexpected QUICTransportParametersRequired", a.name)
+			}
 		case tls.QUICWriteData:
 			data := append([]byte(nil), e.Data...)
 			a.crypto[e.Level] = append(a.crypto[e.Level], data...)
@@ -316,7 +330,7 @@ func TestC23(t *testing.T) {
 				listed = v.Curves
 			}
 		}
-		scenario := []string{"ok", "ok", "ok", "hrr", "no-servername", "empty-psk", "two-paddings", "server-alert", "cancel", "cancel", "minversion-below-1.3", "wrong-level", "never-started"}[i%13]
+		scenario := []string{"ok", "ok", "ok", "hrr", "no-servername", "empty-psk", "two-paddings", "server-alert", "cancel", "cancel", "minversion-below-1.3", "wrong-level", "never-started", "ech-accepted"}[i%14]
 		ccfg := &tls.Config{ServerName: "example.test", RootCAs: peer.Fix().CA.Pool, Time: peer.FixedTime, MinVersion: tls.VersionTLS13, NextProtos: protos}
 		scfg := peer.ServerConfig()
 		scfg.MinVersion = tls.VersionTLS13
@@ -374,6 +388,18 @@ func TestC23(t *testing.T) {
 		}
 		if scenario == "never-started" {
 			qo.neverStart = true
+		}
+		if scenario == "ech-accepted" {
+			// a real ECH offer over QUIC: the inner hello is built by crypto/tls, which asks
+			// the application for its transport parameters (they are supplied on request)
+			key := gridECHKey()
+			scfg.EncryptedClientHelloKeys = peer.ECHServerKeys(true, key)
+			ccfg.EncryptedClientHelloConfigList = peer.ECHConfigList(key)
+			spec.Extensions = append(spec.Extensions[:len(spec.Extensions):len(spec.Extensions)], tls.BoringGREASEECH())
+			qo.tpOnRequest = true
+			// (the inner hello offers crypto/tls's three TLS 1.3 suites whatever the spec says;
+			// that mismatch is outside this property: let the outer hello offer them too)
+			spec.CipherSuites = []uint16{tls.TLS_AES_128_GCM_SHA256, tls.TLS_AES_256_GCM_SHA384, tls.TLS_CHACHA20_POLY1305_SHA256}
 		}
 		run := driveQUIC(rg, ccfg, spec, scfg, cancelAt, rg.Intn(2) == 0, qo)
 		sig := map[string]string{"scenario": scenario}
@@ -448,6 +474,12 @@ func TestC23(t *testing.T) {
 				viol("start_accepts_unbuildable_hello", "Start returned nil although the ClientHello cannot be built")
 			} else {
 				r.Count("unbuildable_reported", 1)
+			}
+		case "ech-accepted":
+			if !run.completed {
+				viol("quic_handshake_incomplete", fmt.Sprintf("QUIC handshake with an ECH offer did not complete (transport parameters requested %d time(s)): start=%v err=%v", run.tpRequests, run.startErr, run.err))
+			} else {
+				r.Count("completed_with_ech_offer", 1)
 			}
 		case "never-started":
 			r.Count("never_started_runs", 1)
